@@ -132,6 +132,8 @@ type peer struct {
 	mu    sync.Mutex
 	nc    int
 	conns map[net.Conn]struct{}
+	// early, if set, is asked on every request head whether to answer without reading the body (and hang up)
+	early func(*wireMsg) bool
 }
 
 func (p *peer) addr() string { return p.ln.Addr().String() }
@@ -201,17 +203,17 @@ type responder func(p *peer, connIdx, reqIdx int, req *wireMsg, w io.Writer) (cl
 func defaultResponder(p *peer, _ int, _ int, req *wireMsg, w io.Writer) bool {
 	body := "served-by " + p.name
 	if req.Method == "HEAD" {
-		fmt.Fprintf(w, "HTTP/1.1 200 OK\r\nContent-Length: %d\r\nX-Served-By: %s\r\n\r\n", len(body), p.name)
+		fmt.Fprintf(w, "HTTP/1.1 200 OK\r\nContent-Length: %d\r\nX-Served-By: %s\r\nX-Req-Target: %s\r\n\r\n", len(body), p.name, req.Target)
 		return false
 	}
-	fmt.Fprintf(w, "HTTP/1.1 200 OK\r\nContent-Length: %d\r\nX-Served-By: %s\r\n\r\n%s", len(body), p.name, body)
+	fmt.Fprintf(w, "HTTP/1.1 200 OK\r\nContent-Length: %d\r\nX-Served-By: %s\r\nX-Req-Target: %s\r\n\r\n%s", len(body), p.name, req.Target, body)
 	return false
 }
 
 func serveRequests(p *peer, conn net.Conn, idx int, inner bool, respond responder) {
 	br := bufio.NewReader(conn)
 	for n := 0; ; n++ {
-		req, err := readWireRequest(br)
+		req, early, err := readWireRequestEarly(br, p.early)
 		if err != nil {
 			if err != io.EOF {
 				p.log.add(hit{Peer: p.name, Kind: "parse-error", Conn: idx, Line: err.Error(), Inner: inner})
@@ -220,6 +222,19 @@ func serveRequests(p *peer, conn net.Conn, idx int, inner bool, respond responde
 		}
 		p.log.add(hit{Peer: p.name, Kind: "request", Conn: idx, Msg: req, Line: req.Method + " " + req.Target + " " + req.Version,
 			Auth: req.get("Authorization"), PAuth: req.get("Proxy-Authorization"), Inner: inner})
+		if early {
+			// answered on the head; the body is read and discarded afterwards (no reset that could overtake the
+			// reply), then the connection carries on or is closed as the reply said
+			closeAfter := respond(p, idx, n, req, conn)
+			conn.SetReadDeadline(time.Now().Add(3 * time.Second))
+			err := req.readBody(br, false, false)
+			conn.SetReadDeadline(time.Time{})
+			req.Body = nil
+			if closeAfter || err != nil {
+				return
+			}
+			continue
+		}
 		if respond(p, idx, n, req, conn) {
 			return
 		}
